@@ -1,5 +1,5 @@
 (* Link between M-BE and the list machine of M-TEB: what a read pass of M-BE does to a thread's transit buffer
-   (`tbuf`, `tcap`) is a sequence of the calls M-TEB is about - a commit (back(); assign; push_back()) per admitted record,
+   (`tbuf`, `tcap`) is a sequence of the calls M-TEB is about - a commit (back(); assign; push_back()) per record taken in,
    an abandoned fill (back(); assign) for a record beyond the timestamp cut-off or one whose formatter's exception
    escapes - and popping the processed event is OPop. So the trajectory of (tbuf, tcap) in every M-BE history is a
    trajectory of `fifo_step`, which the slot array of TransitEventBuffer refines (TEBProofs.teb_refines_fifo). *)
